@@ -1,0 +1,23 @@
+//go:build verif
+
+// Contracts for the distributed iterator's acknowledgement synchronizer (read as text by /verif's
+// govc; comment-only).
+
+package iterator
+
+//@ ignorepkg github.com/synnaxlabs/alamos
+//@ ignorepkg go.uber.org/zap
+
+//@ # Data responses pass straight through. An acknowledgement is forwarded exactly when it is the
+//@ # nodeCount-th acknowledgement of the current cycle carrying the cycle's sequence number; an
+//@ # acknowledgement with a foreign sequence number is dropped and leaves the cycle untouched.
+//@ func (s *synchronizer) sync(_ context.Context, res Response) (out Response, fulfilled bool, err error)
+//@   requires s.nodeCount >= 1 && 0 <= s.cycle.counter && s.cycle.counter < s.nodeCount
+//@   ensures err == nil && __eq(out, res)
+//@   ensures 0 <= s.cycle.counter && s.cycle.counter < s.nodeCount && s.nodeCount == old(s.nodeCount)
+//@   ensures res.Variant == ResponseVariantData ==> fulfilled && s.cycle.counter == old(s.cycle.counter) && __eq(s.cycle.res, old(s.cycle.res))
+//@   ensures res.Variant != ResponseVariantData ==> fulfilled == ((old(s.cycle.counter) == 0 || old(s.cycle.res.SeqNum) == res.SeqNum) && old(s.cycle.counter) + 1 == s.nodeCount)
+//@   ensures res.Variant != ResponseVariantData && fulfilled ==> s.cycle.counter == 0
+//@   ensures res.Variant != ResponseVariantData && old(s.cycle.counter) != 0 && old(s.cycle.res.SeqNum) != res.SeqNum ==> s.cycle.counter == old(s.cycle.counter) && __eq(s.cycle.res, old(s.cycle.res))
+//@   ensures res.Variant != ResponseVariantData && (old(s.cycle.counter) == 0 || old(s.cycle.res.SeqNum) == res.SeqNum) && !fulfilled ==> s.cycle.counter == old(s.cycle.counter) + 1 && s.cycle.res.SeqNum == res.SeqNum
+//@   modifies s
